@@ -228,6 +228,9 @@ fn law_of(msg: &str) -> String {
 }
 
 fn links_leg(ctx: &Ctx) {
+    if vcommon::sched::is_worker() {
+        return;
+    }
     let t0 = Instant::now();
     let depth = if ctx.quick() { 6 } else { 8 };
     let stats = bfs_classified(
@@ -329,6 +332,9 @@ fn loom_scenario(name: &str, bound: Option<usize>) {
 const LOOM_SCENARIOS: [&str; 3] = ["2x2+2snap", "2x1+2snap-commands", "3x1+1snap"];
 
 fn loom_leg(ctx: &Ctx) {
+    if vcommon::sched::is_worker() {
+        return;
+    }
     let t0 = Instant::now();
     let exe = std::env::current_exe().unwrap();
     let thorough = !ctx.quick();
